@@ -90,6 +90,9 @@ pub(crate) async fn get_git_all_changes<'a>(
     };
 
     filtered_changes.sort();
+    // a path can be both a tracked difference and an untracked file (removed by a
+    // later commit and created again); it is one change
+    filtered_changes.dedup();
     Ok(filtered_changes)
 }
 
